@@ -98,6 +98,17 @@ X('x:fieldmap-guarded', lambda s: petl.fieldmap(s, probes.guard({'a': 'f0', 'b':
 X('x:addfields-guarded', lambda s: petl.addfields(s, probes.guard([['z', 1], ['y', 2, 0]])))
 X('x:selectin-guarded', lambda s: petl.selectin(s, 'f0', probes.guard([1, 2])))
 X('x:mergesort-guarded-header', lambda s: petl.mergesort(s, s, key='f0', header=probes.guard(['f0', 'f2'])))
+X('x:mergesort-presorted', lambda s: petl.mergesort(s, [['f0', 'f1', 'f2'], [2, 'm', 'n']], key='f0', presorted=True, missing='NA'))
+X('x:mergesort-presorted-header', lambda s: petl.mergesort(s, s, key='f0', presorted=True, header=['f2', 'f0', 'zz']))
+X('x:join-presorted', lambda a, b: petl.join(a, b, key='f0', presorted=True), arity=2)
+X('x:outerjoin-presorted', lambda a, b: petl.outerjoin(a, b, key='f0', presorted=True, missing='M'), arity=2)
+X('x:complement-presorted', lambda s: petl.complement(s, s, presorted=True), variant='rect')
+X('x:intersection-presorted', lambda s: petl.intersection(s, s, presorted=True), variant='rect')
+X('x:duplicates-presorted', lambda s: petl.duplicates(s, 'f0', presorted=True), variant='rect')
+X('x:aggregate-presorted', lambda s: petl.aggregate(s, 'f0', list, 'f1', presorted=True), variant='rect')
+X('x:rowreduce-presorted', lambda s: petl.rowreduce(s, 'f0', lambda k, rows: [k, len(list(rows))], header=['k', 'n'], presorted=True), variant='rect')
+X('x:mergeduplicates-presorted', lambda s: petl.mergeduplicates(s, 'f0', presorted=True, missing='NA'))
+X('x:sortheader-missing', lambda s: petl.sortheader(s, reverse=True, missing='NA'))
 X('x:lookup-guarded-dict', lambda s: list(petl.lookup(s, 'f0', dictionary={}).items()), variant='rect')
 GUARDED_ARG_FORMS = [n for n in EXTRA if 'guarded' in n]
 
